@@ -44,6 +44,21 @@ fn check_new(s: i64) -> Option<String> {
         Err(_) => Some(format!("new secs={s} expected={:?} actual=panic", fields(s))),
     }
 }
+/// a duration with a fraction of a second: the broken-down time has whole seconds, so the result is that of the whole seconds
+/// (convert to seconds, add, convert back: the instant t + d lies in second t + floor(d))
+fn check_add_frac(start: [i64; 6], d: u64, ns: u32) -> Option<String> {
+    let s0 = days_from_civil(start[0], start[1], start[2]) * 86400 + start[3] * 3600 + start[4] * 60 + start[5];
+    let want = fields(s0 + d as i64);
+    let r = std::panic::catch_unwind(|| {
+        let dt = DateTime { year: start[0], month: start[1], day: start[2], hour: start[3], min: start[4], sec: start[5] };
+        got(&(dt + Duration::new(d, ns)))
+    });
+    match r {
+        Ok(g) if g == want => None,
+        Ok(g) => Some(format!("addfrac start={start:?} dur_secs={d} nanos={ns} expected={want:?} actual={g:?}")),
+        Err(_) => Some(format!("addfrac start={start:?} dur_secs={d} nanos={ns} expected={want:?} actual=panic")),
+    }
+}
 fn check_add(start: [i64; 6], d: u64) -> Option<String> {
     let s0 = days_from_civil(start[0], start[1], start[2]) * 86400 + start[3] * 3600 + start[4] * 60 + start[5];
     let want = fields(s0 + d as i64);
@@ -103,7 +118,7 @@ fn main() {
             .filter(|s| !s.is_empty())
             .filter_map(|s| s.parse().ok())
             .collect();
-        let r = if w.starts_with("render now") { check_now_renderings() } else if w.starts_with("render") { check_render(nums[0]) } else if w.starts_with("new") { check_new(nums[0]) } else {
+        let r = if w.starts_with("render now") { check_now_renderings() } else if w.starts_with("render") { check_render(nums[0]) } else if w.starts_with("new") { check_new(nums[0]) } else if w.starts_with("addfrac") { check_add_frac([nums[0], nums[1], nums[2], nums[3], nums[4], nums[5]], nums[6] as u64, nums[7] as u32) } else {
             check_add([nums[0], nums[1], nums[2], nums[3], nums[4], nums[5]], nums[6] as u64)
         };
         match r {
@@ -139,6 +154,13 @@ fn main() {
                 }
             }
         }
+    }
+    // durations with a fraction of a second, at starts where one more second would carry into the next minute / day / month / year
+    for start in [[1970i64, 1, 1, 0, 0, 0], [1999, 12, 31, 23, 59, 59], [2100, 2, 28, 23, 59, 59], [2024, 2, 29, 23, 59, 58], [2024, 6, 15, 12, 30, 59], [9999, 12, 31, 23, 59, 58]] {
+        for d in [0u64, 1, 59, 86399, 30 * 86400] { for ns in [1u32, 499_999_999, 500_000_000, 999_999_999] {
+            n += 1;
+            if let Some(msg) = check_add_frac(start, d, ns) { if found.len() < 5 { found.push(msg) } }
+        }}
     }
     // rendering on the same grid (coarser) and around every power of ten of each field
     let mut day = 0i64;
